@@ -237,6 +237,7 @@ class VolumeMesh(Mesh):
             self._adjF2C : dict = None
             
             self._adjC2E : dict = None
+            self._adjE2F : dict = None
             self._adjE2C : dict = None
         
         def clear(self):
